@@ -49,16 +49,20 @@ RULE = (
     "mutations at depth 1 and 2, reset_<attr> (both forms), reset, del, further constructor calls; non-trivial = the "
     "line changed the world or raised; distinct = distinct (table, pre-world, line) triples. extra = overflow attribute "
     "and init=False constructions; extra (2) = class families outside the heap grammar (harness/heap_shapes.py; real "
-    "code + oracle): 17 value kinds (tuple-typed attributes holding scalars / lists / spec instances, KeyedList/KeyedSet "
-    "of scalars and of keyed spec items, containers of containers, nested plain / frozen spec items) x four ways of "
+    "code + oracle): 33 value kinds (tuple-typed attributes holding scalars / lists / dicts / tuples / spec instances, "
+    "named tuples, frozensets of plain objects, plain objects, bytearrays, KeyedList/KeyedSet of scalars and of keyed "
+    "spec items, containers of containers and of tuples, nested plain / frozen spec items, Any kinds) x four ways of "
     "declaring the default + spec-subclass and plain-subclass overrides x storage (plain, do_not_copy, Alias local "
     "override / passthrough / fallback, overridable and cached spec_property, property with setter, unmanaged entries) x "
-    "state (size, how entries were materialised, generation 0-3, aliasing inside the instance) x route (every "
+    "preparer hooks handing out registered pre-existing objects (shared by the user's own doing) x state (size, how "
+    "entries were materialised, generation 0-3, aliasing inside the instance, `vals` without a value, an uncopyable "
+    "member) x route (every "
     "copy-on-write helper, every in-place helper / assignment / del, deepcopy, reset_/reset); roots = constructor "
     "arguments, class-level defaults, the instance, a peer built from the same argument objects, the derived instance, "
-    "a second derivation, a later instance; quick: every 9th scenario of the systematic part (offset by seed) + 250 "
+    "a second derivation, a later instance; quick: every 10th scenario of the systematic part (offset by seed) + 220 "
     "random in seeded random order, the second half after a fixed prelude of earlier calls (`()`, `(1, 2)`, empty "
-    "containers, None ... pushed through the library first: module-level caches); thorough: all + 5000 random."
+    "containers, None ... pushed through the library first, then one FAILED call of every kind: module-level caches "
+    "and whatever a failure leaves behind); thorough: all + 5000 random."
 )
 ASSUMPTIONS = [
     "restricted to init-enabled attributes (the property's quantifier); do_not_copy attributes share the constructor "
